@@ -7,6 +7,7 @@ errors, timer expiries and forced closes).  The correspondence suite `C16` check
 transition log of every real tube is a path of this model (event by event).
 -/
 import HopModel.Model.Fin
+import HopModel.Proofs.StopSteps
 namespace Fin
 
 /-! ### safety: only legal transitions, closed is absorbing -/
@@ -262,3 +263,97 @@ example : (read (R.fullClose (R.localClose ⟨0, false, false, false, false⟩))
 example : (read (R.fullClose ⟨4, false, true, false, false⟩) 10) = (.eof, 4, ⟨0, true, true, true, true⟩) := by decide
 
 end Fin
+
+/-!
+Part 2: the wait-for structure of `Muxer.Stop` (`Model/StopSteps.lean`), for any number of tubes,
+any subset of them closing gracefully, in any interleaving, with a transport whose writes return
+or are stuck until it is closed.
+-/
+namespace StopSteps
+
+/-- **C16 (the measure decreases).** Every step of the shutdown strictly decreases the measure
+(open tubes, pending timers, the owner's remaining phases, running workers). -/
+theorem C16_stop_measure {s s' : SS} (hs : Step s s') : measure s' < measure s := by
+  cases hs <;> simp_all [measure, ownerRank] <;> (try split) <;> omega
+
+/-- **C16 (no deadlock).** No reachable state short of completion is stuck: some goroutine is
+enabled or a timer is pending — whatever the loss pattern (tubes that never close gracefully stay
+`live` until the force timer) and even if transport writes block. -/
+theorem C16_stop_progress {n : Nat} {b : Bool} {s : SS} (h : Reach n b s) (hnd : s.owner ≠ .done) :
+    ∃ s', Step s s' := by
+  have inv := inv_reach h
+  by_cases hc : 0 < s.closed
+  · exact ⟨_, Step.closerDone s hc⟩
+  by_cases hl : 0 < s.live
+  · -- a tube that has not closed: the force timer is pending, or it has fired and forces the tube
+    have ho : s.owner = .waitTubes := by
+      cases hq : s.owner <;> first | rfl | (have := inv.tubes (by simp [hq]); omega)
+    cases hf : s.force with
+    | pending => exact ⟨_, Step.forceFire s hf⟩
+    | fired => exact ⟨_, Step.forceTube s hf ho hl⟩
+  by_cases hm : 0 < s.marked
+  · have ho : s.owner = .waitTubes := by
+      cases hq : s.owner <;> first | rfl | (have := inv.tubes (by simp [hq]); omega)
+    by_cases hw : s.writable = true
+    · exact ⟨_, Step.drain s hm hw⟩
+    · -- the transport is stuck and not yet closed: only the force timer helps, and it is pending
+      cases hf : s.force with
+      | pending => exact ⟨_, Step.forceFire s hf⟩
+      | fired =>
+        have := inv.forced hf ho
+        simp [SS.writable, this] at hw
+  -- all tubes are gone
+  cases ho : s.owner with
+  | waitTubes => exact ⟨_, Step.ownerQueues s ho (by omega) (by omega) (by omega)⟩
+  | queuesClosed =>
+    cases hs : s.muxSender with
+    | false => exact ⟨_, Step.ownerGotSender s ho hs⟩
+    | true =>
+      by_cases hw : s.writable = true
+      · exact ⟨_, Step.senderEnd s hs (by simp [ho]) hw⟩
+      · rcases inv.sender ho with ht | hu
+        · exact ⟨_, Step.senderTimerFire s ht ho⟩
+        · simp [SS.writable, hu] at hw
+  | gotSender => exact ⟨_, Step.ownerCloseTransport s ho⟩
+  | waitReceiver =>
+    cases hr : s.receiver with
+    | false => exact ⟨_, Step.ownerDone s ho hr⟩
+    | true => exact ⟨_, Step.receiverEnd s hr (inv.recv ho)⟩
+  | done => exact absurd ho hnd
+
+/-- runs of the model -/
+inductive Run : SS → Nat → SS → Prop
+  | nil (s) : Run s 0 s
+  | cons {s s' s'' : SS} {k : Nat} : Step s s' → Run s' k s'' → Run s (k + 1) s''
+
+/-- **C16 (Stop terminates).** Every run of the shutdown has at most `measure` steps — for `n` tubes
+at most `3·n + 11` from the start — and by `C16_stop_progress` it cannot stop before the owner is
+done: `Stop` returns after a bounded number of steps, of which at most two are timer expiries
+(the force timer and the sender timer, each `muxerTimeout`). -/
+theorem C16_stop_terminates {s s' : SS} {k : Nat} (h : Run s k s') : k + measure s' ≤ measure s := by
+  induction h with
+  | nil => simp
+  | cons hs _ ih => have := C16_stop_measure hs; omega
+
+theorem C16_stop_bound (n : Nat) (b : Bool) : measure (init n b) = 3 * n + 11 := by
+  simp [measure, init, ownerRank]
+
+/-- non-vacuity: two tubes on a dead, stuck transport: nothing can move but the force timer -/
+example : ∀ s', Step (init 2 true) s' → s' = { init 2 true with force := .fired, underlyingClosed := true }
+    ∨ s' = { init 2 true with live := 1, marked := 1 } := by
+  intro s' hs
+  cases hs <;> simp_all [init, SS.writable]
+/-- … and a complete shutdown of one tube over a dead network: ten steps, one timer expiry -/
+example : ∃ s', Run (init 1 false) 10 s' ∧ s'.owner = .done :=
+  ⟨_, Run.cons (Step.forceFire _ rfl)
+      (Run.cons (Step.forceTube _ rfl rfl (by decide))
+      (Run.cons (Step.drain _ (by decide) (by decide))
+      (Run.cons (Step.closerDone _ (by decide))
+      (Run.cons (Step.ownerQueues _ rfl rfl rfl rfl)
+      (Run.cons (Step.senderEnd _ rfl (by decide) (by decide))
+      (Run.cons (Step.ownerGotSender _ rfl rfl)
+      (Run.cons (Step.ownerCloseTransport _ rfl)
+      (Run.cons (Step.receiverEnd _ rfl rfl)
+      (Run.cons (Step.ownerDone _ rfl rfl) (Run.nil _)))))))))), rfl⟩
+
+end StopSteps
